@@ -765,10 +765,14 @@ rt_prop("C02", ["task", "core", "bridge", "comb"],
         "induction over the poll, any fuel and world): poll_keeps_channels_unshared — if every request channel is referenced at most "
         "once by a host-free block and its spawn queue before a poll, so it is afterwards, including requests created and tasks "
         "spawned during the poll; poll_never_adopts_foreign_channel — a poll never makes a task wait on an existing channel it did "
-        "not already wait on. OVER WHOLE RUNS: channels_unshared_over_runs_partial (global invariant `Own`, Lemmas/Own*.lean, "
-        "TasksFrame, SlabSum) — for every task program without combinators held directly by a test and every history of "
-        "resolutions, drops, aborts and polls, every request channel is referenced by at most one suspended or queued task and "
-        "no task references a non-existent channel (partial: nested combinators and the Core/Bridge hosts are not covered). The "
+        "not already wait on. OVER WHOLE RUNS: channels_unshared_over_runs (global invariant `GOwn` = hosting order HL + the "
+        "measure G, Lemmas/G*.lean + HostLt*.lean) — for EVERY command with host-free task bodies, any nesting of then / and / "
+        "all / map_effect / map_event / abortable / builder chains, held directly by a test, and every history of resolutions, "
+        "drops, aborts and polls: summed over ALL commands of the world (hosts, hosted commands at any depth, task slabs and "
+        "spawn queues) every request channel is referenced by at most one suspended or queued task and no task references a "
+        "non-existent channel; commands_never_share_a_channel (two different commands never both reference one channel); "
+        "channels_unshared_over_runs_partial is the earlier single-command form (invariant `Own`). Not proved: the same invariant "
+        "under the Core and Bridge hosts. The "
         "whole-run uniqueness of delivery is covered by the correspondence (unique payloads, equal operations, every resolve result "
         "class compared) — oracle keys resolve-result-differs / delivery-differs.")
 rt_prop("C03", ["core", "bridge"],
